@@ -717,6 +717,11 @@ func runC06(c *Ctx) error {
 		var progs []GoProg
 		var feats []map[string]bool
 		for i := 0; i < 200 && done+i < np; i++ {
+			if i%3 == 0 { // loops and branches whose blocks redeclare the names their headers use (C08's generator)
+				progs = append(progs, c08Program(c.RNG, 2+c.RNG.Intn(3)))
+				feats = append(feats, map[string]bool{"scope-program": true})
+				continue
+			}
 			p, f := GenProgram(c.RNG, 2+c.RNG.Intn(3))
 			progs = append(progs, p)
 			feats = append(feats, f)
